@@ -617,6 +617,22 @@ pub fn gen_go_max(rng: &mut Rng, timed_ok: bool, white_to_move: bool, max_plan_m
             }
         }
     }
+    // UCI does not fix the order of the go parameters: one line in three has its
+    // (keyword, value) pairs shuffled (movestogo first, increments before clocks ...)
+    if parts.len() >= 5 && rng.chance(1, 3) {
+        let mut pairs: Vec<(String, String)> = parts[1..].chunks(2).filter(|c| c.len() == 2).map(|c| (c[0].clone(), c[1].clone())).collect();
+        if pairs.len() * 2 + 1 == parts.len() {
+            for i in (1..pairs.len()).rev() {
+                let j = rng.below(i as u64 + 1) as usize;
+                pairs.swap(i, j);
+            }
+            parts.truncate(1);
+            for (k, v) in pairs {
+                parts.push(k);
+                parts.push(v);
+            }
+        }
+    }
     parts.join(" ")
 }
 
